@@ -6,18 +6,24 @@ LEVEL = "other"
 LEVEL_TEXT = ("Mixed.  Proved: the length calculators and argument checks of operations.py against the SMT-LIB result width (all integers); every "
               "explicit variables=/length= passed to make_like inside the verified rewriters covers the variables / equals the width of what is "
               "built (clauses make_like/variables, make_like/length, <rewriter>/sort of the C01 obligations).  Bounded: recursive recomputation of "
-              "length, variables, symbolic and depth on every tree of the composition run.  Base.__new__'s own derivation from children is only "
-              "covered by the bounded part.")
+              "length, variables, symbolic and depth on every tree of the composition run.  Base.__new__'s and Base.make_like's derivation of "
+              "depth / variables / symbolic / accumulated annotations from the arguments is PROVED (real code on stub arguments with symbolic "
+              "depth, every keyword combination; the hash-cons cache empty).")
 EXPLANATION = LEVEL_TEXT
 TECHNIQUE = "integer VCs on the real length calculators + metadata clauses of the rewriter obligations (pyvc, z3); bounded recomputation"
 RULE = _C01.RULE
-FUNCTIONS = ["operations.basic_length_calc", "operations.concat_length_calc", "operations.extract_length_calc", "operations.ext_length_calc",
+FUNCTIONS = ["Base.__new__", "Base.make_like", "Base.__a_init__", "operations.basic_length_calc", "operations.concat_length_calc", "operations.extract_length_calc", "operations.ext_length_calc",
              "operations.extract_check", "operations.extend_check", "operations.length_same_check", "simplifications._flatten_simplifier (variables=)",
              "simplifications.extract_simplifier (make_like)", "simplifications.bitwise_sub_simplifier (make_like)"]
 TRUSTED = _C01.TRUSTED
-ASSUMPTIONS = ["Base.__new__ / Base.make_like metadata derivation is covered only by the bounded recomputation"]
+ASSUMPTIONS = ["Base.__new__ obligations: hash-cons cache empty (a hit returns an existing node of the same structure: C06); the concrete backend's folding of non-symbolic nodes by contract (BackendError or any node)",
+               "make_like is exercised with the two call shapes the library uses: annotation edits on self.args, and rebuilding with new arguments without explicit metadata"]
 
 
 def tasks(tier, seed=0):
     rel = [t for t in _C01._simp_tasks(tier) if any(k in t["id"] for k in ("bitwise_", "boolean_", "extract_", "concat_"))]
-    return [task("vf.contracts.lengths", "ob_lengths", "lengths.operations/calculators", ["C05"])] + rel + _C01._compose_tasks(tier, seed + 5)
+    B = "vf.contracts.basenew"
+    base = [task(B, "ob_base_new", "basenew.Base.__new__/metadata", ["C05", "C07"], tier=tier),
+            task(B, "ob_make_like", "basenew.Base.make_like/metadata", ["C05", "C07"], tier=tier)]
+    from vf.props import C08 as _C08
+    return [task("vf.contracts.lengths", "ob_lengths", "lengths.operations/calculators", ["C05"])] + base + rel + _C08.shape_tasks(tier, seed, count=4) + _C01._compose_tasks(tier, seed + 5)
